@@ -49,6 +49,12 @@ BBStatement = (
 )
 
 
+import os as _os
+
+_VERIF_ON = _os.environ.get("CQCL_GUPPYLANG_VERIF") == "1"
+_VERIF_BBHASH = None
+
+
 @dataclass(eq=False)  # Disable equality to recover hash from `object`
 class BB(ABC):
     """A basic block in a control flow graph."""
@@ -73,6 +79,15 @@ class BB(ABC):
     # links.
     dummy_predecessors: list[Self] = field(default_factory=list)
     dummy_successors: list[Self] = field(default_factory=list)
+
+    # Verification hook H2 (inert unless CQCL_GUPPYLANG_VERIF=1 *and* a harness installs
+    # `_VERIF_BBHASH`): lets a model checker decide the hash, and thereby the iteration
+    # order inside sets, of basic blocks, which is otherwise an accident of heap layout.
+    if _VERIF_ON:
+
+        def __hash__(self) -> int:
+            f = _VERIF_BBHASH
+            return object.__hash__(self) if f is None else f(self)
 
     # If the BB has multiple successors, we need a predicate to decide to which one to
     # jump to
